@@ -129,10 +129,14 @@ def _match(obs, exp_all, cand, valid, mode, L):
     return ass, dict(bad=bad, nbad=int((nm == 0).sum()), ambiguous=ambiguous)
 
 
-def _digest(d):
+def _digest(d, keys=None):
+    """content hash of the arrays under `keys` (default: all keys now present)"""
     import hashlib
     h = hashlib.sha1()
-    for k in sorted(d):
+    for k in (sorted(d) if keys is None else keys):
+        if k not in d:
+            h.update(b'<missing:' + k.encode() + b'>')
+            continue
         h.update(k.encode())
         h.update(np.ascontiguousarray(d[k]).tobytes())
     return h.hexdigest()
@@ -149,7 +153,8 @@ def run(case):
     mode = 'none' if not rsd else ('lc' if lc else 'box')
     with_ab = psname != 'base'
     hd, pd = R.halo_dict(T, with_ab), R.part_dict(T, with_ab)
-    dig0 = (_digest(hd), _digest(pd))
+    keys0 = (sorted(hd), sorted(pd))      # only the arrays the caller handed in count as inputs (defaults may be cached under new keys)
+    dig0 = (_digest(hd, keys0[0]), _digest(pd, keys0[1]))
     params = dict(z=0.5, h=0.6736, Lbox=L, Mpart=2.109e9, velz2kms=velz, origin=origin, chunk=-1, numslabs=1)
     probs, nt = [], []
     ex = dict(runs=0, host_decisions=0, particle_decisions=0, galaxies_checked=0, centrals_checked=0, satellites_checked=0,
@@ -295,6 +300,7 @@ def run(case):
                     seen.append(a)
                     assigned[(ic, sub, tn, kind)] = np.unique(a) if not info['nbad'] else None
                     nsel = len(a)
+                    ex['populations_checked'] = ex.get('populations_checked', 0) + 1     # one (call, tracer, central|satellite) population compared with the model
                     if 0 < nsel < len(A):
                         nt.append((psname, ic, list(sub), mode, tn, kind))
                     if mode == 'box' and len(a):
@@ -373,11 +379,11 @@ def run(case):
                 if a.shape != b.shape or a.tobytes() != b.tobytes():
                     P('successive-calls:reused-tracer-dict', f'subset {[R.TR[q] for q in sub]}: after updating logM1/alpha/logM_cut in place, the second call with the reused dict differs from a call with a fresh dict in {t}.{k} ({a.shape} vs {b.shape})')
                     break
-    if (_digest(hd), _digest(pd)) != dig0:
-        P('input-modified', 'gen_gal_cat modified the halo/particle input arrays')
+    if (_digest(hd, keys0[0]), _digest(pd, keys0[1])) != dig0:
+        P('input-modified', 'gen_gal_cat modified (or removed) halo/particle input arrays it was given')
     if os.environ.get('VF_C09_TIMING'):
         print(f'[c09 timing] pid={os.getpid()} {case} {time.time() - _t0:.1f}s at {time.strftime("%H:%M:%S")}', file=sys.stderr, flush=True)
-    return dict(problems=probs, evals=ex['runs'], nt=nt, extra=ex, sample=sample)
+    return dict(problems=probs, evals=max(ex['runs'], ex.get('populations_checked', 0)), nt=nt, extra=ex, sample=sample)
 
 
 def _describe(kind, j, T, Wc, Wp_by_kc, Ah):
